@@ -850,6 +850,10 @@ func c21Search(c *Ctx, cs c21Case) c21ShRes {
 	if skip != "" {
 		return c21ShRes{skipped: skip}
 	}
+	if strings.ContainsAny(bs.Stdout, "\x01\x7f") {
+		// bash 5.2 leaks its internal CTLESC/CTLNUL quoting bytes in some expansions with an empty IFS
+		return c21ShRes{skipped: "bash-ctlesc-artifact"}
+	}
 	if differ(bs, in) {
 		// once more, alone in time: never report a load-induced flake
 		bs, in, skip = run()
@@ -1543,7 +1547,7 @@ func c21(c *Ctx) {
 	}
 	nsh := c21NSh
 	if c.Thorough() {
-		nsh = 30000 / max(1, c.Shards)
+		nsh = 16000 / max(1, c.Shards)
 	}
 	if c.N == 0 {
 		nsh = 0
@@ -1749,6 +1753,9 @@ func c21Excluded(cs c21Case, d *c21PE) string {
 	}
 	if d.name == "0" {
 		return "dollar-zero"
+	}
+	if d.name == "-" {
+		return "dollar-dash" // ${#-} is the length of $-, whose flags differ by design (no h, B in interp)
 	}
 	if d.name == "#" && (d.kind != 'N' || d.excl || d.length) {
 		return "hash-param-grammar" // bash reads ${#^^x}, ${#:1} … as bad substitutions
